@@ -24,6 +24,8 @@ SPEC = {
         {"name": "mutesrace", "pkg": "./mutesrace", "search_cases": 60, "timeout_quick": 300},
         # the whole pipeline: the assembled instance (engine sys of C01/C04/C05) never lists a suppressed alert in a notification
         {"name": "sys", "pkg": "./sys", "search_cases": 4000, "quick_cases": 250, "timeout_quick": 90, "only": ["takes_effect_next_flush"]},
+        # "… and in the status the API reports for the alert": the real application's status callback (C17's engine, op astatus)
+        {"name": "reload", "pkg": "./reload", "search_cases": 4, "timeout_quick": 400, "timeout_thorough": 900, "timeout_search": 400, "only": ["mutes_eq_bruteforce"]},
     ],
     "rule": "random histories on one real silence.Silences + silence.Silencer under synctest virtual time (1 s grid): Set create/edit "
             "(compatible; every minimal variation of the stored matcher sets - operator only, value only, name only, one matcher added / "
